@@ -1502,6 +1502,65 @@ fn check_c06_at(cx: &mut Cx, project: &Project, class: &str, dir: &std::path::Pa
 	}
 }
 
+/// Values that arrive between `assemble` and `finalize` (an embedding declares a global before assembling and gives it its value
+/// afterwards, as `Context`'s API allows): the statements that use it are completed by the tasks `finalize` runs. A value no
+/// encoding exists for is a Fatal error inside such a task: `finalize` must report failure, the diagnostic must be recorded at the
+/// statement, nothing may panic, and the bytes of the other statements stay what they were.
+fn finalize_with_late_values(cx: &mut Cx, dir: &std::path::Path)
+{
+	use trion::asm::constant::Realm;
+	// (name of the case, value given after assembly, expected success, line and column of the first diagnostic if any)
+	for (class, value, ok, at) in [("late-ok", 7i64, true, None), ("late-fatal", 256, false, Some((3u32, 2u32))), ("late-trivial", -1, false, Some((3, 2)))]
+	{
+		let text = ".addr 0x100;\n.import g9;\n MOVS R0, g9;\n.du8 5;\nMOVS R1, g9;\n.du16 g9 & 0xFF;\n";
+		let input = format!("late-value {class}");
+		let p = Project::single(text.as_bytes());
+		p.write(dir);
+		let path = dir.join("main.asm");
+		let r = guarded(||
+		{
+			let directives = DirectiveList::generate();
+			let mut ctx = Context::new(&Arm6M, &directives);
+			ctx.defer_constant("g9", Realm::Global).unwrap();
+			let (res, _) = ctx.assemble(text.as_bytes(), path.clone());
+			let closed = ctx.close_segment().is_ok();
+			let pending_errors = ctx.get_errors().len();
+			let fresh = ctx.insert_constant("g9", value, Realm::Global);
+			let fin = ctx.finalize();
+			let errs: Vec<(u32, u32, String)> = ctx.get_errors().iter().map(|e| (e.line, e.col, crate::errkind::diag_kind(&e.value))).collect();
+			let mut image = BTreeMap::new();
+			for (range, seg) in ctx.output().iter() {for (i, b) in seg.iter().enumerate() {image.insert(range.get_first().wrapping_add(i as u32), *b);}}
+			(res.is_ok(), closed, pending_errors, fresh.is_ok(), fin, errs, image)
+		});
+		cx.report.case(Some(&input));
+		cx.report.hit(&format!("value given between assemble and finalize: {class}"));
+		match r
+		{
+			Err(p) => cx.report.oracle_fail(input, format!("panic: {p}")),
+			Ok((asm_ok, closed, pending, inserted, fin, errs, image)) =>
+			{
+				if !(asm_ok && closed && pending == 0 && inserted) {cx.report.oracle_fail(input.clone(), format!("the program with a declared global did not assemble: assemble {asm_ok}, close {closed}, {pending} diagnostics, insert {inserted}"));}
+				if fin != ok {cx.report.oracle_fail(input.clone(), format!("finalize() returned {fin}, expected {ok}; diagnostics {errs:?}"));}
+				if fin && !errs.is_empty() {cx.report.oracle_fail(input.clone(), format!("finalize() reports success with diagnostics recorded: {errs:?}"));}
+				match (at, errs.first())
+				{
+					(None, None) => (),
+					(Some((l, c)), Some((el, ec, _))) if l == *el && c == *ec => (),
+					(want, got) => cx.report.oracle_fail(input.clone(), format!("first diagnostic {got:?}, expected at {want:?}")),
+				}
+				// the statement with a known value keeps its byte whatever happens to the others; on success every statement has its final bytes
+				if image.get(&0x102) != Some(&5) {cx.report.oracle_fail(input.clone(), format!("the byte of `.du8 5` at 0x102 is {:?}", image.get(&0x102)));}
+				if ok
+				{
+					let want: Vec<u8> = vec![0x07, 0x20, 0x05, 0x07, 0x21, 0x07, 0x00];
+					let got: Vec<u8> = (0x100u32..0x107).filter_map(|a| image.get(&a).copied()).collect();
+					if got != want {cx.report.oracle_fail(input.clone(), format!("image {} after finalize, expected {}", hex(&got), hex(&want)));}
+				}
+			},
+		}
+	}
+}
+
 /// `.include` applied through `DirectiveList::process` on a fresh `Context` (no current file: the path is taken as it is
 /// when absolute): must behave as the same include written in a main file — same image, same success
 fn include_without_current_file(cx: &mut Cx, dir: &std::path::Path)
@@ -1527,7 +1586,8 @@ fn include_without_current_file(cx: &mut Cx, dir: &std::path::Path)
 				let (line, col) = (el.line, el.col);
 				if let ElementValue::Directive{name, args} = el.value
 				{
-					results.push(directives.process(&mut ctx, Positioned{line, col, value: (name.as_ref(), args)}).is_ok());
+					let list = ctx.get_directives();
+					results.push(list.process(&mut ctx, Positioned{line, col, value: (name.as_ref(), args)}).is_ok());
 				}
 			}
 			let closed = ctx.close_segment().is_ok();
@@ -1702,6 +1762,11 @@ pub fn run(id: &str, cx: &mut Cx)
 			include_without_current_file(cx, &dir);
 			return;
 		}
+		if input.starts_with("late-value")
+		{
+			finalize_with_late_values(cx, &dir);
+			return;
+		}
 		if let Some((abs, proj)) = input.strip_prefix("layout ").and_then(|r| r.split_once(" | "))
 		{
 			// a model/implementation disagreement of the layout correspondence: re-run both sides
@@ -1832,6 +1897,7 @@ oracle = no panic; success xor (diagnostic with file/line/col or close error); i
 				check_c06_at(cx, &p, class, &dir, *want);
 			}
 			include_without_current_file(cx, &dir);
+			finalize_with_late_values(cx, &dir);
 			let n = if cx.thorough() {120_000} else {8_000};
 			let mut made = 0;
 			while made < n
